@@ -89,7 +89,15 @@ IdleFire(c) == /\ IdleTimer /\ DeadUnnoticed(c)
                /\ UNCHANGED <<ust, inc, lastHeard, now, okSince, late, pending, faults>>
 
 (* ---- requests ---- *)
-DueOk(c) == \A u \in UpOf[c] : ust[u] = "up" /\ now - okSince[u] > Grace(c)      \* strictly later than the grace period
+(* a request is due to succeed when every upstream it may use is up and nothing stale can stand in its way: the grace    *)
+(* period has passed (strictly), or - for the cached QUIC connection - there is nothing cached and no attempt retrying   *)
+(* (a fresh connection is made), or the cached connection is live                                                       *)
+DueOk(c) == /\ \A u \in UpOf[c] : ust[u] = "up"
+            /\ IF Kind[c] = "quic"
+               THEN \/ now - okSince[TheUp(c)] > Grace(c)
+                    \/ (cache[c] = NoConn /\ ~pending[c] /\ now - okSince[TheUp(c)] > 0)
+                    \/ Live(c)
+               ELSE \A u \in UpOf[c] : now - okSince[u] > Grace(c)
 Count(c, o) == late' = [late EXCEPT ![c] = IF o # "ok" /\ DueOk(c) THEN @ + 1 ELSE @]
 DialOutcome(u) == CASE ust[u] = "up" -> "ok" [] ust[u] \in {"stalled", "holding"} -> "hang" [] OTHER -> "fail"
 AttemptDial(c, o, op) == /\ Kind[c] \in {"dial", "lb"} /\ op = "-"
